@@ -102,6 +102,22 @@ Definition galt_ok (okc : call -> bool) (a : ialt) : bool :=
   | [c] => match cj_call c with CComma _ => false | _ => true end
   | _ => true
   end.
+(* alternatives with an EXPLICIT action: a value-carrying item need not be named (the generator drops the names the
+   action does not use), the action text is arbitrary *)
+Definition gconj_ok2 (okc : call -> bool) (c : conj) : bool :=
+  okc (cj_call c) && negb (cj_notnone c) &&
+  (if carries (cj_call c) then match cj_var c with Some x => negb (String.eqb x "cut") | None => true end
+   else if is_cut_call (cj_call c) then match cj_var c with Some x => String.eqb x "cut" | None => false end
+   else match cj_var c with None => true | Some _ => false end).
+Definition galt_ok2 (okc : call -> bool) (a : ialt) : bool :=
+  if a_explicit a
+  then negb (a_guard a) && negb (a_locations a) && forallb (gconj_ok2 okc) (a_conjs a) &&
+       Bool.eqb (a_has_cut a) (existsb (fun c => is_cut_call (cj_call c)) (a_conjs a))
+  else galt_ok okc a.
+Definition mk_act (t : string) : action := {| atext := t; aused := []; aparses := true |}.
+Definition gdec_alt2 (dc : call -> item) (a : ialt) : alt :=
+  Alt (map (gdec_conj dc) (a_conjs a)) (if a_explicit a then Some (mk_act (a_action a)) else None).
+Definition conj_vars (cs : list conj) : list string := flat_map (fun c => match cj_var c with Some x => [x] | None => [] end) cs.
 Definition flat_conj : conj -> bool := gconj_ok flat_call.
 Definition flat_alt : ialt -> bool := galt_ok flat_call.
 Definition is_memo (d : deco) : bool := match d with DMemo => true | _ => false end.
@@ -538,6 +554,240 @@ Proof.
            destruct (IH e (with_pos st1 mark) ea t st' Hal eq_refl Hcf H) as (msg & q & Hp).
            exists msg, q. rewrite <- Hpos in *. eapply PA_next; [exact C2|exact Hp].
     + injection H as -> <-. destruct (gconjs_raises _ _ _ _ _ _ _ Hcs0 Ec (gdec_alt dc a) 0 [] [] false) as (msg & q & Hs).
+      exists msg, q. rewrite <- Hpos. eapply PA_err. exact Hs.
+    + discriminate H.
+Qed.
+(* ---------- alternatives with explicit actions ---------- *)
+Lemma conj_ok_weaken c : gconj_ok okc c = true -> gconj_ok2 okc c = true.
+Proof.
+  unfold gconj_ok, gconj_ok2. intros H. apply andb_prop in H as [H Hv]. rewrite H. cbn [andb].
+  destruct (carries (cj_call c)); [|exact Hv]. destruct (cj_var c); [exact Hv|discriminate Hv].
+Qed.
+
+Lemma env_get_in_app l : forall x w (e : env), In (x, w) l -> env_get (l ++ e)%list x <> None.
+Proof.
+  induction l as [|[y u] l IH]; intros x w e Hin; [destruct Hin|]. cbn [app env_get].
+  destruct (String.eqb x y) eqn:E; [discriminate|]. destruct Hin as [Hin|Hin]; [injection Hin as -> ->; rewrite String.eqb_refl in E; discriminate E|].
+  exact (IH x w e Hin).
+Qed.
+
+(* the PEG environment follows the interpreter's: the names of the items are the variables of the conjunctions *)
+Lemma gconjs_agree2 : forall cs e st v e' st', forallb (gconj_ok2 okc) cs = true -> rconjs rec cs e st = (Ok v, e', st') ->
+  forall a k vals envP cut0, env_cut e = cut0 ->
+  (forall j c, nth_error cs j = Some c -> item_name a (k + j) = cj_var c) ->
+  exists bs cutf, e' = (rev bs ++ e)%list /\ env_cut e' = cutf /\
+    (cutf = true -> cut0 = true \/ existsb (fun c => is_cut_call (cj_call c)) cs = true) /\
+    (truthy v = true -> map fst bs = conj_vars cs /\
+        exists vs, pseq a k (map (gdec_conj dc) cs) (pos st) vals envP cut0 (SSucc (vals ++ vs) (rev bs ++ envP)%list (pos st'))) /\
+    (truthy v = false -> pseq a k (map (gdec_conj dc) cs) (pos st) vals envP cut0 (if cutf then SCutFail else SFail)).
+Proof.
+  induction cs as [|c cs IH]; intros e st v e' st' Hf H a k vals envP cut0 Hc0 Hnm.
+  - cbn [run_conjs] in H. injection H as <- <- <-. exists [], cut0. split; [reflexivity|]. split; [exact Hc0|].
+    split; [intros Hc; left; exact Hc|]. split; [|discriminate]. intros _. split; [reflexivity|]. exists []. cbn [map rev app].
+    rewrite app_nil_r. apply PQ_nil.
+  - cbn [forallb] in Hf. apply andb_prop in Hf as [Hc Hcs1]. unfold gconj_ok2 in Hc. apply andb_prop in Hc as [Hc Hv].
+    apply andb_prop in Hc as [Hcall Hnn]. apply negb_true_iff in Hnn. cbn [run_conjs] in H.
+    destruct (rcall rec (cj_call c) st) as [[w| |] st1] eqn:Ec; try discriminate.
+    destruct (Hcs (cj_call c) st w st1 Hcall Ec) as (res & Hp & Ha).
+    change (match cj_call c, w with CComma _, VTuple [w0] => w0 | _, _ => w end) with (bound_of (cj_call c) w) in H.
+    rewrite Hnn in H. cbn [map].
+    set (e1 := match cj_var c with Some x => (x, bound_of (cj_call c) w) :: e | None => e end) in *.
+    assert (He1 : e1 = (rev (binding c w) ++ e)%list) by (unfold e1, binding; destruct (cj_var c); reflexivity).
+    set (cut1 := cut0 || is_cut (dc (cj_call c))).
+    assert (Hname : item_name a k = cj_var c) by (rewrite <- (Nat.add_0_r k); apply Hnm; reflexivity).
+    assert (Hcut1 : env_cut e1 = cut1).
+    { unfold e1, cut1. destruct (carries (cj_call c)) eqn:Ecar.
+      - assert (is_cut (dc (cj_call c)) = false) as ->.
+        { pose proof (Hcar0 (cj_call c) Hcall) as Hcar. rewrite Ecar in Hcar. symmetry in Hcar. apply negb_true_iff in Hcar.
+          apply orb_false_iff in Hcar. tauto. }
+        rewrite orb_false_r. destruct (cj_var c) as [x|]; [|exact Hc0]. apply negb_true_iff in Hv. unfold env_cut. cbn [env_get].
+        rewrite String.eqb_sym in Hv. rewrite Hv. exact Hc0.
+      - rewrite (Hcutc (cj_call c) Hcall). destruct (cj_call c) eqn:Ecc; try discriminate Ecar.
+        + cbn [is_cut_call] in Hv. destruct (cj_var c); [discriminate|]. cbn [is_cut_call]. rewrite orb_false_r. exact Hc0.
+        + cbn [is_cut_call] in Hv. destruct (cj_var c) as [x|]; [|discriminate]. apply String.eqb_eq in Hv. subst x.
+          cbn [is_cut_call]. rewrite orb_true_r. cbn [run_call] in Ec. injection Ec as <- <-. reflexivity. }
+    (* the PEG environment after this item *)
+    assert (HenvP : (if is_lookahead (dc (cj_call c)) then envP else bind_name item_name a k (bound_of (cj_call c) w) envP)
+                    = (rev (binding c w) ++ envP)%list).
+    { unfold bind_name, binding. rewrite Hname. destruct (is_lookahead (dc (cj_call c))) eqn:El.
+      - (* a lookahead binds nothing on either side *)
+        assert (Ecar : carries (cj_call c) = false).
+        { rewrite (Hcar0 (cj_call c) Hcall). rewrite El. reflexivity. }
+        rewrite Ecar in Hv. destruct (cj_call c) eqn:Ecc; try discriminate Ecar.
+        + cbn [is_cut_call] in Hv. destruct (cj_var c); [discriminate|reflexivity].
+        + exfalso. pose proof (Hcutc CTrue Hcall) as Hx. cbn [is_cut_call] in Hx. destruct (dc CTrue); discriminate.
+      - destruct (cj_var c); reflexivity. }
+    destruct (truthy w) eqn:Tw.
+    + destruct Ha as [[_ ->]|[Hc1 _]]; [|congruence].
+      assert (Hnm' : forall j c0, nth_error cs j = Some c0 -> item_name a (S k + j) = cj_var c0).
+      { intros j c0 Hj. replace (S k + j) with (k + S j) by lia. apply Hnm. exact Hj. }
+      destruct (IH _ _ _ _ _ Hcs1 H a (S k)
+                  (if is_lookahead (dc (cj_call c)) || is_cut (dc (cj_call c)) then vals else (vals ++ [bound_of (cj_call c) w])%list)
+                  (rev (binding c w) ++ envP)%list
+                  cut1 Hcut1 Hnm') as (bs & cutf & He & Hcf & Hbs & IH1 & IH2).
+      exists (binding c w ++ bs)%list, cutf. split; [rewrite He, He1, rev_app_distr, <- app_assoc; reflexivity|]. split; [exact Hcf|].
+      split; [|split].
+      * intros Hc. destruct (Hbs Hc) as [H1|H1]; [|right; cbn [existsb]; rewrite H1; apply orb_true_r].
+        unfold cut1 in H1. apply orb_prop in H1 as [H1|H1]; [left; exact H1|right]. cbn [existsb].
+        rewrite (Hcutc (cj_call c) Hcall) in H1. rewrite H1. reflexivity.
+      * intros Tv. destruct (IH1 Tv) as (Hfst & vs & Hseq). split.
+        -- rewrite map_app, Hfst. unfold conj_vars, binding. cbn [flat_map]. destruct (cj_var c); reflexivity.
+        -- destruct (is_lookahead (dc (cj_call c)) || is_cut (dc (cj_call c))) eqn:Hnl.
+           ++ exists vs. eapply PQ_step; [exact Hp|]. cbn [ni_item gdec_conj]. rewrite Hnl, HenvP. fold cut1.
+              rewrite rev_app_distr, <- app_assoc. exact Hseq.
+           ++ exists (bound_of (cj_call c) w :: vs). eapply PQ_step; [exact Hp|]. cbn [ni_item gdec_conj]. rewrite Hnl, HenvP. fold cut1.
+              rewrite rev_app_distr, <- !app_assoc. rewrite <- app_assoc in Hseq. exact Hseq.
+      * intros Tv. eapply PQ_step; [exact Hp|]. cbn [ni_item gdec_conj]. rewrite HenvP. fold cut1. exact (IH2 Tv).
+    + injection H as <- <- <-. exists (binding c w), cut1. split; [exact He1|]. split; [exact Hcut1|]. split; [|split; [discriminate|]].
+      * intros Hc. unfold cut1 in Hc. apply orb_prop in Hc as [H1|H1]; [left; exact H1|right]. cbn [existsb].
+        rewrite (Hcutc (cj_call c) Hcall) in H1. rewrite H1. reflexivity.
+      * intros _. destruct Ha as [[Hc1 _]|[_ ->]]; [congruence|].
+        assert (Hnc : is_cut (dc (cj_call c)) = false).
+        { rewrite (Hcutc (cj_call c) Hcall). destruct (cj_call c) eqn:Ecc; try reflexivity.
+          cbn [run_call] in Ec. injection Ec as <- <-. discriminate Tw. }
+        unfold cut1. rewrite Hnc, orb_false_r.
+        apply (PQ_fail K rs toks kw soft aevalP item_name forced_msg a k (gdec_conj dc c) (map (gdec_conj dc) cs) (pos st) vals envP cut0). exact Hp.
+Qed.
+
+Variable OKA : ialt -> Prop.                (* the alternatives the hypotheses on explicit actions are about *)
+(* the reference semantics evaluates an explicit action as the interpreter does: its text, in the environment of the
+   alternative's named items *)
+Hypothesis HactP : forall alt ac vals env s e, alt_action alt = Some ac -> aevalP alt vals env s e = aeval (atext ac) env.
+Hypothesis Hnmi : forall a k, item_name a k = match nth_error (alt_items a) k with Some n => ni_name n | None => None end.
+(* what earlier alternatives of the same method left bound does not matter to an action whose alternative bound its names *)
+Hypothesis Hstale : forall a, OKA a -> a_explicit a = true -> forall e1 e0,
+  (forall x, In x (conj_vars (a_conjs a)) -> env_get e1 x <> None) -> aeval (a_action a) (e1 ++ e0)%list = aeval (a_action a) e1.
+(* the recorded C05 exclusion: an explicit action never yields a falsy value *)
+Hypothesis Htruthy : forall a, OKA a -> a_explicit a = true -> forall e v, aeval (a_action a) e = Some v -> truthy v = true.
+
+Lemma names_premise a : forall j c, nth_error (a_conjs a) j = Some c -> item_name (gdec_alt2 dc a) (0 + j) = cj_var c.
+Proof.
+  intros j c Hj. cbn [Nat.add]. rewrite Hnmi. unfold gdec_alt2. cbn [alt_items]. rewrite nth_error_map, Hj. reflexivity.
+Qed.
+Lemma bound_all bs xs : map fst bs = xs -> forall x, In x xs -> env_get (rev bs) x <> None.
+Proof.
+  intros <- x Hin. apply in_map_iff in Hin as ([y w] & <- & Hin). cbn [fst].
+  rewrite <- (app_nil_r (rev bs)). apply (env_get_in_app (rev bs) y w []). apply -> in_rev. exact Hin.
+Qed.
+
+Lemma galts_agree2 m mark prev : m_without_invalid m = false ->
+  forall alts e0 st v st', forallb (galt_ok2 okc) alts = true -> Forall OKA alts -> pos st = mark -> env_cut e0 = false ->
+  ralts rec m mark None prev alts e0 st = (Ok v, st') ->
+  exists res, palts (map (gdec_alt2 dc) alts) mark res /\
+              ((truthy v = true /\ res = PSucc v (pos st')) \/ (v = VNone /\ res = PFail /\ pos st' = mark)).
+Proof.
+  intros Hwi. induction alts as [|a alts IH]; intros e0 st v st' Hf HOK Hpos He0 H.
+  - cbn [run_alts] in H. rewrite Hwi in H. injection H as <- <-. exists PFail. split; [apply PA_nil|]. right. auto.
+  - cbn [forallb] in Hf. apply andb_prop in Hf as [Ha Hal]. pose proof (Forall_inv HOK) as HOKa. pose proof (Forall_inv_tail HOK) as HOKl. unfold galt_ok2 in Ha.
+    destruct (a_explicit a) eqn:Ex.
+    + (* an explicit action *)
+      apply andb_prop in Ha as [Ha Hhc]. apply andb_prop in Ha as [Ha Hcs0]. apply andb_prop in Ha as [Hg Hloc].
+      apply negb_true_iff in Hg. apply negb_true_iff in Hloc. apply Bool.eqb_prop in Hhc.
+      cbn [run_alts] in H. rewrite Hg in H. cbn [andb] in H.
+      destruct (rconjs rec (a_conjs a) e0 st) as [[[v1| |] e] st1] eqn:Ec; try discriminate.
+      destruct (gconjs_agree2 _ _ _ _ _ _ Hcs0 Ec (gdec_alt2 dc a) 0 [] [] false He0 (names_premise a)) as (bs & cutf & He & Hcf & Hbs & C1 & C2).
+      cbn [map].
+      destruct (truthy v1) eqn:T1.
+      * destruct (C1 eq_refl) as (Hfst & vs & Hseq). rewrite Hloc in H. cbn [andb] in H. rewrite He in H.
+        rewrite (Hstale a HOKa Ex (rev bs) e0 (bound_all bs _ Hfst)) in H.
+        destruct (aeval (a_action a) (rev bs)) as [v2|] eqn:Ev; [|discriminate H]. rewrite Hwi in H. injection H as <- <-.
+        exists (PSucc v2 (pos st1)). split; [|left; split; [exact (Htruthy a HOKa Ex _ _ Ev)|reflexivity]].
+        rewrite <- Hpos. eapply PA_ok; [exact Hseq|]. unfold alt_value, gdec_alt2. cbn [alt_action]. rewrite Ex.
+        rewrite (HactP _ (mk_act (a_action a))); [|reflexivity]. cbn [atext mk_act].
+        rewrite app_nil_r. exact Ev.
+      * specialize (C2 eq_refl). destruct cutf.
+        -- assert (Hhas : a_has_cut a = true) by (rewrite Hhc; destruct (Hbs eq_refl) as [X|X]; [discriminate X|exact X]).
+           rewrite Hhas in H. cbn [andb] in H. unfold env_cut in Hcf. rewrite Hcf in H. rewrite Hwi in H. injection H as <- <-.
+           exists PFail. split; [rewrite <- Hpos; eapply PA_cut; exact C2|]. right. auto.
+        -- unfold env_cut in Hcf. rewrite Hcf in H. rewrite andb_false_r in H.
+           destruct (IH e (with_pos st1 mark) v st' Hal HOKl eq_refl Hcf H) as (res & Hp & Hr).
+           exists res. split; [|exact Hr]. rewrite <- Hpos in *. eapply PA_next; [exact C2|exact Hp].
+    + (* the default action: as in galts_agree *)
+      assert (Ed : gdec_alt2 dc a = gdec_alt dc a) by (unfold gdec_alt2, gdec_alt; rewrite Ex; reflexivity).
+      unfold galt_ok in Ha.
+      apply andb_prop in Ha as [Ha Hne]. apply andb_prop in Ha as [Ha Hact]. apply andb_prop in Ha as [Ha Hnd].
+      apply andb_prop in Ha as [Ha Hhc]. apply andb_prop in Ha as [Ha Hcs0]. apply andb_prop in Ha as [Hg Hloc].
+      apply negb_true_iff in Hg. apply negb_true_iff in Hloc. apply String.eqb_eq in Hact. apply Bool.eqb_prop in Hhc.
+      cbn [run_alts] in H. rewrite Hg in H. cbn [andb] in H.
+      destruct (rconjs rec (a_conjs a) e0 st) as [[[v1| |] e] st1] eqn:Ec; try discriminate.
+      destruct (gconjs_agree _ _ _ _ _ _ Hcs0 Ec (gdec_alt dc a) 0 [] [] false He0) as (bs & cutf & He & Hcf & Hbs & C1 & C2). cbn [map].
+      rewrite Ed.
+      destruct (truthy v1) eqn:T1.
+      * destruct (C1 eq_refl) as (vs & envP' & Hseq & Hfil & Hlv & Hl & Hall). rewrite Hloc in H. cbn [andb] in H. rewrite Hact in H.
+        assert (Hev : aeval (default_text (value_vars (a_conjs a))) e = Some (match vs with [w] => w | _ => VList vs end)).
+        { apply Haeval; [exact Hnd|]. rewrite He.
+          pose proof (env_get_bound (value_vars (a_conjs a)) vs e0 Hnd Hlv) as HB. rewrite <- Hfil in HB.
+          assert (Hnc := value_vars_not_cut _ Hcs0).
+          clear -HB Hnc. induction HB as [|x w xs ws Hx _ IHB]; [constructor|]. constructor.
+          - rewrite env_get_skip_cut; [exact Hx|]. intros ->. apply Hnc. left. reflexivity.
+          - apply IHB. intros Hin. apply Hnc. right. exact Hin. }
+        rewrite Hev, Hwi in H. injection H as <- <-.
+        exists (PSucc (match vs with [w] => w | _ => VList vs end) (pos st1)). split.
+        -- rewrite <- Hpos. eapply PA_ok; [exact Hseq|]. reflexivity.
+        -- left. split; [exact (truthy_default _ _ Hne Hall)|reflexivity].
+      * specialize (C2 eq_refl). destruct cutf.
+        -- assert (Hhas : a_has_cut a = true) by (rewrite Hhc; destruct (Hbs eq_refl) as [X|X]; [discriminate X|exact X]).
+           rewrite Hhas in H. cbn [andb] in H. unfold env_cut in Hcf. rewrite Hcf in H. rewrite Hwi in H. injection H as <- <-.
+           exists PFail. split; [rewrite <- Hpos; eapply PA_cut; exact C2|]. right. auto.
+        -- unfold env_cut in Hcf. rewrite Hcf in H. rewrite andb_false_r in H.
+           destruct (IH e (with_pos st1 mark) v st' Hal HOKl eq_refl Hcf H) as (res & Hp & Hr).
+           exists res. split; [|exact Hr]. rewrite <- Hpos in *. eapply PA_next; [exact C2|exact Hp].
+Qed.
+
+Lemma gconjs_raises2 : forall cs e st ea t e' st', forallb (gconj_ok2 okc) cs = true ->
+  rconjs rec cs e st = (Raise (XSyntaxError ea t), e', st') ->
+  forall a k vals envP cut0, exists m q, pseq a k (map (gdec_conj dc) cs) (pos st) vals envP cut0 (SErr m q).
+Proof.
+  induction cs as [|c cs IH]; intros e st ea t e' st' Hf H a k vals envP cut0.
+  - cbn [run_conjs] in H. discriminate H.
+  - cbn [forallb] in Hf. apply andb_prop in Hf as [Hc Hcs1]. unfold gconj_ok2 in Hc. apply andb_prop in Hc as [Hc Hv].
+    apply andb_prop in Hc as [Hcall Hnn]. apply negb_true_iff in Hnn. cbn [run_conjs] in H. cbn [map].
+    destruct (rcall rec (cj_call c) st) as [[w|x| ] st1] eqn:Ec.
+    + destruct (Hcs (cj_call c) st w st1 Hcall Ec) as (res & Hp & Ha). rewrite Hnn in H.
+      destruct (truthy w) eqn:Tw; [|discriminate H].
+      destruct Ha as [[_ ->]|[Hc1 _]]; [|congruence].
+      destruct (IH _ _ _ _ _ _ Hcs1 H a (S k)
+                  (if is_lookahead (dc (cj_call c)) || is_cut (dc (cj_call c)) then vals else (vals ++ [bound_of (cj_call c) w])%list)
+                  (if is_lookahead (dc (cj_call c)) then envP else bind_name item_name a k (bound_of (cj_call c) w) envP)
+                  (cut0 || is_cut (dc (cj_call c)))) as (m & q & Hs).
+      exists m, q. eapply PQ_step; [exact Hp|]. cbn [ni_item gdec_conj]. exact Hs.
+    + injection H as -> <- <-. destruct (HcsR _ _ _ _ _ Hcall Ec) as (m & q & Hp). exists m, q.
+      apply (PQ_err K rs toks kw soft aevalP item_name forced_msg a k (gdec_conj dc c) (map (gdec_conj dc) cs) (pos st) vals envP cut0 m q). exact Hp.
+    + discriminate H.
+Qed.
+
+Lemma galts_raises2 m mark prev : m_without_invalid m = false ->
+  forall alts e0 st ea t st', forallb (galt_ok2 okc) alts = true -> pos st = mark -> env_cut e0 = false ->
+  ralts rec m mark None prev alts e0 st = (Raise (XSyntaxError ea t), st') ->
+  exists msg q, palts (map (gdec_alt2 dc) alts) mark (PErr msg q).
+Proof.
+  intros Hwi. induction alts as [|a alts IH]; intros e0 st ea t st' Hf Hpos He0 H.
+  - cbn [run_alts] in H. discriminate H.
+  - cbn [forallb] in Hf. apply andb_prop in Hf as [Ha Hal]. unfold galt_ok2 in Ha.
+    (* both kinds of alternative: their conjunctions are admissible in the weaker sense *)
+    assert (Hparts : a_guard a = false /\ a_locations a = false /\ forallb (gconj_ok2 okc) (a_conjs a) = true /\
+                     a_has_cut a = existsb (fun c => is_cut_call (cj_call c)) (a_conjs a)).
+    { destruct (a_explicit a).
+      - apply andb_prop in Ha as [Ha Hhc]. apply andb_prop in Ha as [Ha Hcs0]. apply andb_prop in Ha as [Hg Hloc].
+        apply negb_true_iff in Hg. apply negb_true_iff in Hloc. apply Bool.eqb_prop in Hhc. auto.
+      - unfold galt_ok in Ha.
+        apply andb_prop in Ha as [Ha Hne]. apply andb_prop in Ha as [Ha Hact]. apply andb_prop in Ha as [Ha Hnd].
+        apply andb_prop in Ha as [Ha Hhc]. apply andb_prop in Ha as [Ha Hcs0]. apply andb_prop in Ha as [Hg Hloc].
+        apply negb_true_iff in Hg. apply negb_true_iff in Hloc. apply Bool.eqb_prop in Hhc.
+        repeat split; auto. rewrite forallb_forall in *. intros c Hc. apply conj_ok_weaken. exact (Hcs0 c Hc). }
+    destruct Hparts as (Hg & Hloc & Hcs0 & Hhc).
+    cbn [run_alts] in H. rewrite Hg in H. cbn [andb] in H. cbn [map].
+    destruct (rconjs rec (a_conjs a) e0 st) as [[[v1|x| ] e] st1] eqn:Ec.
+    + destruct (gconjs_agree2 _ _ _ _ _ _ Hcs0 Ec (gdec_alt2 dc a) 0 [] [] false He0 (names_premise a)) as (bs & cutf & He & Hcf & Hbs & C1 & C2).
+      destruct (truthy v1) eqn:T1.
+      * rewrite Hloc in H. cbn [andb] in H. destruct (aeval (a_action a) e); discriminate H.
+      * specialize (C2 eq_refl). destruct cutf.
+        -- assert (Hhas : a_has_cut a = true) by (rewrite Hhc; destruct (Hbs eq_refl) as [X|X]; [discriminate X|exact X]).
+           rewrite Hhas in H. cbn [andb] in H. unfold env_cut in Hcf. rewrite Hcf in H. discriminate H.
+        -- unfold env_cut in Hcf. rewrite Hcf in H. rewrite andb_false_r in H.
+           destruct (IH e (with_pos st1 mark) ea t st' Hal eq_refl Hcf H) as (msg & q & Hp).
+           exists msg, q. rewrite <- Hpos in *. eapply PA_next; [exact C2|exact Hp].
+    + injection H as -> <-. destruct (gconjs_raises2 _ _ _ _ _ _ _ Hcs0 Ec (gdec_alt2 dc a) 0 [] [] false) as (msg & q & Hs).
       exists msg, q. rewrite <- Hpos. eapply PA_err. exact Hs.
     + discriminate H.
 Qed.
